@@ -310,4 +310,4 @@ CHECKS = {
 NOT_APPLICABLE = {}
 
 # checks that exist but are temporarily not claimed (being reconciled with repairs of other properties)
-SUSPENDED = {'C02': 'built and merged; being reconciled with a late repair in /repo (msgpack-rpc nil parameter list of a bare method); not claimed until green again'}
+SUSPENDED = {}
